@@ -253,6 +253,10 @@ func (h *harness) pollerRound(rng *lib.RNG, round int) {
 				}
 				if v.Length() > 0 {
 					nonEmpty.Add(1)
+					// the poller is the writer: an entry carries definitions only of classes its own block declares
+					if sig, what := entryClassOracle(&v); sig != "" {
+						violate("poller-"+sig, what)
+					}
 					if int64(v.Length()) > maxLen.Load() {
 						maxLen.Store(int64(v.Length()))
 					}
@@ -266,6 +270,12 @@ func (h *harness) pollerRound(rng *lib.RNG, round int) {
 						var n int
 						if err, panicked, stack := lib.Try(func() error {
 							sec, what, n = viewStateOracle(node.bc, &v, height)
+							if sec == "" {
+								// class lookups at every slot: only classes a block of the view (or the base) declares
+								if csig, cwhat, _ := viewClassOracle(node.bc, &v, uniCH); csig != "" {
+									sec, what = csig, cwhat
+								}
+							}
 							return nil
 						}); panicked {
 							violate("poller-state-read-panics", fmt.Sprintf("a state read through a view panicked: %v\n%s", err, clip(stack)))
@@ -366,9 +376,9 @@ func (h *harness) pollerRound(rng *lib.RNG, round int) {
 	time.Sleep(10 * time.Millisecond)
 	stop.Store(true)
 	cancel()
-	done := lib.WithDeadline(30*time.Second, wg.Wait)
+	done := lib.WithDeadline(300*time.Second, wg.Wait)
 	if !done {
-		violate("poller-stage-hangs", "poller / readers did not stop within 30s")
+		violate("poller-stage-hangs", "poller / readers did not stop within 300s")
 	}
 	h.res.HitN("poller-latest-polls", int(sim.latest.Load()))
 	h.res.HitN("poller-bynumber-polls", int(sim.byNum.Load()))
